@@ -215,6 +215,11 @@ def run(tier: str) -> int:
         p['Gradients'] = ', '.join(gen.fmt(rng.uniform(30, 80)) for _ in range(3))
         p['Thicknesses'] = ', '.join(gen.fmt(rng.uniform(0.5, 1.5)) for _ in range(2))
         bases.append((f'liststyle{k}', last_wins(gen.to_text(p))))
+        if k % 2 == 0:      # both spellings at once, with different values: the enumerated entry governs wherever the two lines stand
+            both = dict(p)
+            both['Gradient 1'] = gen.fmt(rng.uniform(30, 80))
+            both['Thickness 2'] = gen.fmt(rng.uniform(0.5, 1.5))
+            bases.append((f'liststyle+enumerated{k}', last_wins(gen.to_text(both))))
     nperm = 3 if tier == 'quick' else 10
     jobs, groups, overrides = [], {}, []
     for tag, params in bases:
@@ -226,7 +231,7 @@ def run(tier: str) -> int:
             vt = f'{tag}|{st}' if f'{tag}|{st}' not in groups[tag] else f'{tag}|{st}2'
             jobs.append((vt, render(params, rng, st)))
             groups[tag].append(vt)
-        for k in range(nperm if not tag.startswith('implicit:') else max(nperm, 8)):
+        for k in range(nperm if not tag.startswith(('implicit:', 'liststyle+')) else max(nperm, 8)):
             jobs.append((f'{tag}|perm{k}', render(permute(params, rng), rng, rng.choice(['plain', 'decorate', 'duplicate']))))
             groups[tag].append(f'{tag}|perm{k}')
         if tag.startswith('implicit:'):      # the optional-module lines first, then everything else
